@@ -234,8 +234,61 @@ template <class T> static void angleModOne (T x)
     if (!(off <= tol)) fail<T> ("angleMod-congruent", dummy, x, T (0), T (0), (double) off, (double) tol);
 }
 
+// G. the free functions of ImathMatrixAlgo.h against their builders (principal range), also with uniform scale
+template <class T> static void algoOne (T x, T y, T z, T scale)
+{
+    ++evals;
+    const LD eps = std::numeric_limits<T>::epsilon ();
+    OrdInfo dX = {"extractEulerXYZ", 0, 0, 0, 0, true, false}, dZ = {"extractEulerZYX", 0, 0, 0, 0, true, false};
+    Matrix44<T> m;
+    m.setEulerAngles (Vec3<T> (x, y, z));
+    {
+        // Matrix44::setEulerAngles = the XYZ rotation of the spec (a different operation order than toMatrix44: not bitwise)
+        LD ds = dist (m, oracle (ORD[0], x, y, z));
+        OrdInfo dS = {"XYZ", 0, 0, 0, 0, true, false};
+        note ("setEulerAngles_vs_spec_over_eps", (double) (ds / eps));
+        if (!(ds <= 8 * eps)) fail<T> ("setEulerAngles", dS, x, y, z, (double) ds, (double) (8 * eps));
+    }
+    Matrix44<T> ms = m;
+    for (int i = 0; i < 3; ++i) for (int j = 0; j < 3; ++j) ms[i][j] *= scale;
+    Vec3<T> r;
+    extractEulerXYZ (ms, r);
+    // conditioning 1/cos(y) for the outer angles
+    LD cond = 1 / std::max ((LD) 1e-3, fabsl (cosl ((LD) y)));
+    LD b = 16 * eps * cond;
+    LD d = std::max (fabsl ((LD) r.x - x), std::max (fabsl ((LD) r.y - y), fabsl ((LD) r.z - z)));
+    note ("extractEulerXYZ_angle_err_over_eps_cond", (double) (d / (eps * cond)));
+    if (!(d <= b)) fail<T> ("extractEulerXYZ", dX, x, y, z, (double) d, (double) b);
+    Matrix44<T> mz = Euler<T> (x, y, z, Euler<T>::ZYX).toMatrix44 ();
+    for (int i = 0; i < 3; ++i) for (int j = 0; j < 3; ++j) mz[i][j] *= scale;
+    extractEulerZYX (mz, r);
+    d = std::max (fabsl ((LD) r.x - x), std::max (fabsl ((LD) r.y - y), fabsl ((LD) r.z - z)));
+    note ("extractEulerZYX_angle_err_over_eps_cond", (double) (d / (eps * cond)));
+    if (!(d <= b)) fail<T> ("extractEulerZYX", dZ, x, y, z, (double) d, (double) b);
+    OrdInfo d2 = {"extractEuler22", 0, 0, 0, 0, true, false}, d3 = {"extractEuler33", 0, 0, 0, 0, true, false};
+    Matrix22<T> m2; m2.setRotation (x);
+    Matrix33<T> m3; m3.setRotation (x);
+    for (int i = 0; i < 2; ++i) for (int j = 0; j < 2; ++j) { m2[i][j] *= scale; m3[i][j] *= scale; }
+    T r2, r3;
+    extractEuler (m2, r2);
+    extractEuler (m3, r3);
+    LD d22 = fabsl ((LD) r2 - x), d33 = fabsl ((LD) r3 - x);
+    note ("extractEuler2D_angle_err_over_eps", (double) (std::max (d22, d33) / eps));
+    if (!(d22 <= 8 * eps)) fail<T> ("extractEuler22", d2, x, y, z, (double) d22, (double) (8 * eps));
+    if (!(d33 <= 8 * eps)) fail<T> ("extractEuler33", d3, x, y, z, (double) d33, (double) (8 * eps));
+}
+
 template <class T> static void runAll (int n)
 {
+    {
+        std::uniform_real_distribution<double> V (-1.0, 1.0);
+        for (int t = 0; t < 20 * n; ++t)
+        {
+            double x = V (rng) * 3.1, y = V (rng) * 1.5, z = V (rng) * 3.1;
+            double sc = (t % 3 == 0) ? 1.0 : std::pow (2.0, (double) ((long) (rng () % 21) - 10));
+            algoOne<T> ((T) x, (T) y, (T) z, (T) sc);
+        }
+    }
     std::uniform_real_distribution<double> U (-1.0, 1.0);
     for (int oi = 0; oi < 24; ++oi)
     {
